@@ -121,6 +121,12 @@ theorem variables_block_recovered (O : Oracle) (b : SVarBlock) (h : b.WF O) :
     (varsDecl O b.toks).map (fun vs => vs.map projVar) = some b.erase := by
   rw [varsDecl_block O b h, Option.map_some, SVarBlock.proj_parsed O b h]
 
+/-- the fuel of the `@variables` loop is irrelevant: any amount from the token count on gives the same variables (one
+unit per declaration is what is used) -/
+theorem variables_fuel_irrelevant (O : Oracle) (b : SVarBlock) (h : b.WF O) (f : Nat) (hf : b.toks.length + 1 ≤ f) :
+    varsLoop O f [] b.toks = varsDecl O b.toks := by
+  rw [varsDecl_block O b h, varsLoop_block O b h f (Nat.le_trans b.fuel_bound hf)]
+
 /-- `@import` alone (`CSSImportRule.cssText = tokens`): target, media query tokens and name of every spelling;
 `storedName`: an empty name is no name -/
 theorem import_rule_recovered (O : Oracle) (kw : Mask) (g1 : Gap) (href : SHref) (g2 : Gap)
